@@ -43,6 +43,8 @@ PosSpec gen_evasion_family(Rng& r);
 std::string gen_corner_zugzwang_fen(Rng& r);
 std::string gen_wide_fen(Rng& r);
 PosSpec gen_castle_lookalike(Rng& r);
+PosSpec gen_double_check_family(Rng& r);
+std::string gen_castle_enemy_on_b_file_fen(Rng& r);
 
 }  // namespace sim
 #endif
